@@ -553,6 +553,43 @@ def r612(ctx):
 ASE_REL = "infretis/classes/engines/ase_engine.py"
 
 
+FORMATTER_REL = "infretis/classes/formatter.py"
+
+def r618(ctx):
+    """What is read back from the path files has the precision of what the run holds in memory:
+    the readers of order.txt / energy.txt / traj.txt build double-precision arrays. A reduced
+    precision (float32, float16) moves a six-decimal value that sits exactly on an interface to
+    the other side (-0.8 -> -0.80000001), so a reloaded path is weighted differently from the
+    same path in the uninterrupted run."""
+    rid = "R-6.18"
+    tree = ctx.tree
+    LOW = ("float32", "float16", "single", "half", "f4", "f2", "<f4", ">f4", "<f2", ">f2")
+    n = 0
+    for rel in (FORMATTER_REL, PATH):
+        for m, q, f in tree.all_funcs([rel]):
+            for c in walk_local(f):
+                if not isinstance(c, ast.Call):
+                    continue
+                dts = [k.value for k in c.keywords if k.arg == "dtype"]
+                if last_name(c) == "astype" and c.args:
+                    dts.append(c.args[0])
+                if last_name(c) in ("float32", "float16", "single", "half"):
+                    dts.append(c.func)
+                for dt in dts:
+                    n += 1
+                    txt = ast.unparse(dt).replace('"', "").replace("'", "")
+                    if txt.split(".")[-1] in LOW:
+                        ctx.bad(rid, c, f"{q} builds `{short(c, 50)}` in reduced precision ({txt}): values read back from the path files no longer equal the six-decimal values the interrupted run held as doubles - an order parameter exactly on an interface changes side, the reloaded path gets another weight, and the restarted run writes other data and restart files than the run in one go", construct=f"{q}: reduced precision {txt}")
+                    else:
+                        ctx.ok(rid, c, f"{q}: `{short(c, 40)}` keeps double (or wider) precision", nontrivial=False)
+            # np.array(...) of parsed text without dtype is float64
+    loaders = [(m, q, f) for rel in (FORMATTER_REL,) for m, q, f in tree.all_funcs([rel]) if f.name == "load"]
+    if len(loaders) < 2:
+        raise AnalysisError(f"R-6.18: only {len(loaders)} load() methods found in formatter.py")
+    for m, q, f in loaders:
+        ctx.ok(rid, f, f"{q} examined ({sum(1 for c in walk_local(f) if isinstance(c, ast.Call) and last_name(c) in ('array', 'asarray'))} array constructions)")
+
+
 def run(ctx):
     ctx.rule("R-6.6", "in-flight jobs are persisted and re-issued in one ensemble-index unit (offset symmetry of current.locked; shared with C08 R-8.7)", floor=4)
     ctx.rule("R-6.1", "restart.toml writer/reader agreement: keys, roles, key representation", floor=12)
@@ -590,6 +627,8 @@ def run(ctx):
     ctx.rule("R-6.15", "every in-process random draw of a move comes from the job's streams that restart.toml persists (shared with C07 R-7.4): a draw from the process-global generator is not reproduced by a restart", floor=10)
     from . import c07 as _c07
     ctx.attempt(_c07.r74, RuleProxy(ctx, "R-6.15", " (restart equivalence: the restart file persists the scheduler stream only; a draw from any other generator differs between the run and its restart)"))
+    ctx.rule("R-6.18", "paths read back from order.txt / energy.txt / traj.txt keep double precision (no float32 / float16 in the readers)", floor=2)
+    ctx.attempt(r618, ctx)
     ctx.rule("R-6.17", "a restart hands the re-issued and all later jobs the streams of the uninterrupted run: the restored spawn counter does not count jobs that pick_lock spawns again (shared with C07 R-7.9)", floor=1)
     ctx.attempt(_c07.spawn_counter_not_double_counted, ctx, "R-6.17", " (restart equivalence: infretis_data.txt and restart.toml of the restarted run differ from the uninterrupted run)")
     ctx.rule("R-6.16", "the live paths in memory stay what is on disk: moves hand frames of their input paths to engines only as fresh copies and never extend an input path in place (shared with C09 R-9.3) - otherwise a rejected move leaves the in-memory path pointing at scratch files while a restart reloads the intact path", floor=13)
@@ -602,6 +641,7 @@ def run(ctx):
 
 
 VARIANTS = [
+    B("c06-order-file-read-in-single-precision", FORMATTER_REL, '                "data": np.array(blocks["data"]),', '                "data": np.array(blocks["data"], dtype=np.float32),', "R-6.18", control=True, why="seeded C06_m"),
     B("c06-spawn-counter-counts-reissued-jobs", REPEX, "            n_children_spawned=self.cstep,", "            n_children_spawned=self.cstep + len(self.config[\"current\"].get(\"locked\", [])),", "R-6.17", control=True, why="seeded C06_l"),
     B("c06-zero-swap-hands-live-frame-to-engine", TIS, "path_old0.phasepoints[-1].copy()", "path_old0.phasepoints[-1]", "R-6.16", control=True, why="seeded C06_j"),
     B("c06-ase-integrator-loses-job-stream", ASE_REL, "dyn = self.Integrator(atoms, **integrator_settings)", "dyn = self.Integrator(atoms, **self.integrator_settings)", "R-6.15", control=True, why="seeded C06_i"),
